@@ -67,6 +67,12 @@ def run(ctx):
     lines = [life_line(c, i % 2) for i, c in enumerate(seq)]
     rc, out, err = run_san(aexe, lines, env, 7200)
     judge('ASan/LSan/UBSan, %d key sets one after the other in one process (n = %s)' % (len(seq), [c[1] for c in seq]), 'sequence', rc, out, err, {'tool': 'asan', 'lines': lines})
+    # the lower-level key lifecycle: the coefficient-domain bootstrapping key is deleted before its FFT conversion is used and deleted
+    flines = ['fftkeylife 3 1 2 10 8 2', 'fftkeylife 9 2 3 7 4 4', 'fftkeylife 1 1 2 16 2 8']
+    rc, out, err = run_san(aexe, flines, env, 3600)
+    if judge('ASan/LSan/UBSan, source key deleted before its FFT key is used', 'fftkeylife', rc, out, err, {'tool': 'asan', 'lines': flines}):
+        for fl, o in zip(flines, out.strip().split('\n')):
+            if o.split()[:2] != ['ok', '0']: ctx.report('fft-key-not-self-contained', '%s: bootstrapping through an FFT key whose source key has been deleted gives wrong signs (%s)' % (fl, o[:40]), {'tool': 'asan', 'lines': [fl]})
     # Karatsuba workspace: the routine runs on exact-size heap blocks of the size the model predicts (ASan redzones right behind),
     # its highest written byte must be the model's high-water mark, guard words behind R and behind the workspace survive
     ksizes = [1, 2, 4, 8, 16, 32, 64, 128, 256, 512, 1024, 2048] + ([4096, 12, 20, 24, 36, 40, 48, 72, 96, 136, 200] if thorough else [12, 24, 40])
@@ -130,7 +136,7 @@ def run(ctx):
             ctx.report('thread-handover-wrong', '%s: transforms on FFT-domain objects that were allocated by a thread which has exited give wrong results (%s)' % (be, out.strip()[:60]), {'tool': 'asan-be', 'backend': be, 'lines': ['threadfirst']})
     # ---- B: memcheck on the AVX2 build (assembly paths)
     vlibd = vlib.build_lib('vg'); vexe = vlib.build_harness('mem_drv.cpp', vlibd, 'spqlios-fma', 'vg')
-    vjobs = [['small %d' % n for n in range(1, 14)] + ['small 500', 'small 1023'], ['threadfirst'], [life_line((0, 3, 1, 2, 10, 8, 2), 1)], [life_line((0, 7, 2, 3, 7, 8, 2), 0)], [life_line((0, 8, 1, 16, 2, 4, 4), 1), life_line((0, 1, 1, 1, 16, 2, 2), 0)]]
+    vjobs = [['small %d' % n for n in range(1, 14)] + ['small 500', 'small 1023'], ['threadfirst'], ['fftkeylife 3 1 2 10 8 2'], [life_line((0, 3, 1, 2, 10, 8, 2), 1)], [life_line((0, 7, 2, 3, 7, 8, 2), 0)], [life_line((0, 8, 1, 16, 2, 4, 4), 1), life_line((0, 1, 1, 1, 16, 2, 2), 0)]]
     if thorough: vjobs += [[life_line((0, 1025, 1, 3, 7, 8, 2), 1)], [life_line((128, 0, 0, 0, 0, 0, 0), 0)], [life_line((0, 9, 2, 2, 10, 8, 2), 0), life_line((0, 3, 1, 4, 8, 31, 1), 1)]]
     def vg(lines):
         try:
